@@ -17,17 +17,75 @@ import (
 	"sort"
 	"strconv"
 	"strings"
+	"sync"
 	"time"
 
 	"github.com/KafScale/platform/pkg/storage"
 )
 
+// verifC44Mode is a per-key read behaviour of a backend: "" (answer at once), "slowok" (answer after ms),
+// "slowfail"/"hang" (block for ms, then fail like a reset connection).  Every wait ends early when the
+// caller's context is done and then returns ctx.Err(), like a real S3 client.
+type verifC44Mode struct {
+	kind string
+	ms   int
+}
+
+// verifC44Gate makes the primary's download calls of one `conc` op overlap: a call waits until n calls
+// have arrived (or 60 ms passed — coalesced calls never arrive).
+type verifC44Gate struct {
+	mu      sync.Mutex
+	n, seen int
+	ch      chan struct{}
+}
+
+func (g *verifC44Gate) arrive() {
+	g.mu.Lock()
+	g.seen++
+	if g.seen == g.n {
+		close(g.ch)
+	}
+	g.mu.Unlock()
+	select {
+	case <-g.ch:
+	case <-time.After(60 * time.Millisecond):
+	}
+}
+
 type verifC44Backend struct {
 	tag             string
 	inner           *storage.MemoryS3Client
 	failing         map[string]bool
+	mode            map[string]verifC44Mode
+	gate            *verifC44Gate
 	failIndexUpload bool
 	log             *[]string
+}
+
+// readGate applies context, slow/fail behaviour and the injected fault of a download of key.
+func (b *verifC44Backend) readGate(ctx context.Context, key string) error {
+	if err := ctx.Err(); err != nil {
+		return err
+	}
+	if b.gate != nil {
+		b.gate.arrive()
+	}
+	if m, ok := b.mode[key]; ok && m.kind != "" {
+		t := time.NewTimer(time.Duration(m.ms) * time.Millisecond)
+		select {
+		case <-ctx.Done():
+			t.Stop()
+			return ctx.Err()
+		case <-t.C:
+		}
+		if m.kind != "slowok" {
+			return errVerifC44Injected
+		}
+	}
+	if b.failing[key] {
+		return errVerifC44Injected
+	}
+	return ctx.Err()
 }
 
 var errVerifC44Injected = errors.New("injected read fault")
@@ -39,10 +97,16 @@ func (b *verifC44Backend) note(m string) {
 }
 func (b *verifC44Backend) UploadSegment(ctx context.Context, key string, body []byte) error {
 	b.note("UploadSegment")
+	if err := ctx.Err(); err != nil {
+		return err
+	}
 	return b.inner.UploadSegment(ctx, key, body)
 }
 func (b *verifC44Backend) UploadIndex(ctx context.Context, key string, body []byte) error {
 	b.note("UploadIndex")
+	if err := ctx.Err(); err != nil {
+		return err
+	}
 	if b.failIndexUpload {
 		return errVerifC44Injected
 	}
@@ -50,32 +114,44 @@ func (b *verifC44Backend) UploadIndex(ctx context.Context, key string, body []by
 }
 func (b *verifC44Backend) DeleteSegment(ctx context.Context, key string) error {
 	b.note("DeleteSegment")
+	if err := ctx.Err(); err != nil {
+		return err
+	}
 	return b.inner.DeleteSegment(ctx, key)
 }
 func (b *verifC44Backend) DeleteIndex(ctx context.Context, key string) error {
 	b.note("DeleteIndex")
+	if err := ctx.Err(); err != nil {
+		return err
+	}
 	return b.inner.DeleteIndex(ctx, key)
 }
 func (b *verifC44Backend) DownloadSegment(ctx context.Context, key string, rng *storage.ByteRange) ([]byte, error) {
 	b.note("DownloadSegment")
-	if b.failing[key] {
-		return nil, errVerifC44Injected
+	if err := b.readGate(ctx, key); err != nil {
+		return nil, err
 	}
 	return b.inner.DownloadSegment(ctx, key, rng)
 }
 func (b *verifC44Backend) DownloadIndex(ctx context.Context, key string) ([]byte, error) {
 	b.note("DownloadIndex")
-	if b.failing[key] {
-		return nil, errVerifC44Injected
+	if err := b.readGate(ctx, key); err != nil {
+		return nil, err
 	}
 	return b.inner.DownloadIndex(ctx, key)
 }
 func (b *verifC44Backend) ListSegments(ctx context.Context, prefix string) ([]storage.S3Object, error) {
 	b.note("ListSegments")
+	if err := ctx.Err(); err != nil {
+		return nil, err
+	}
 	return b.inner.ListSegments(ctx, prefix)
 }
 func (b *verifC44Backend) EnsureBucket(ctx context.Context) error {
 	b.note("EnsureBucket")
+	if err := ctx.Err(); err != nil {
+		return err
+	}
 	return b.inner.EnsureBucket(ctx)
 }
 
@@ -167,6 +243,64 @@ func verifC44OrphanScenario() string {
 		flush1, st(errO), restored, res.BaseOffset, flush2, got, want)
 }
 
+// verifC44SlowScenario: four reads run concurrently against replicas that are slow to fail / slow to
+// answer (2.5 s — longer than any plausible replica timeout), under a caller context of 20 s.  Each
+// result is printed next to what the primary alone answers.
+func verifC44SlowScenario() string {
+	bg := context.Background()
+	type rd struct {
+		name string
+		kind string // seg | idx
+		rng  *storage.ByteRange
+		mode verifC44Mode
+		copy bool // replica holds an equal copy
+	}
+	reads := []rd{
+		{"a", "seg", &storage.ByteRange{Start: 1, End: 5}, verifC44Mode{"slowfail", 2500}, false},
+		{"b", "idx", nil, verifC44Mode{"slowfail", 2500}, true},
+		{"c", "seg", nil, verifC44Mode{"hang", 2500}, false},
+		{"d", "seg", &storage.ByteRange{Start: 0, End: 2}, verifC44Mode{"slowok", 2500}, true},
+	}
+	out := make([]string, len(reads))
+	var wg sync.WaitGroup
+	for i, r := range reads {
+		wg.Add(1)
+		go func(i int, r rd) {
+			defer wg.Done()
+			defer func() {
+				if rec := recover(); rec != nil {
+					out[i] = r.name + "=panic/-"
+				}
+			}()
+			pri := &verifC44Backend{tag: "w", inner: storage.NewMemoryS3Client(), failing: map[string]bool{}, mode: map[string]verifC44Mode{}}
+			rep := &verifC44Backend{tag: "r", inner: storage.NewMemoryS3Client(), failing: map[string]bool{}, mode: map[string]verifC44Mode{}}
+			dual := newDualS3Client(pri, rep)
+			body := []byte{byte(0x10 + i), 2, 3, 4, 5, 6, 7, 8}
+			sk, ik := verifC44SegKey(i), verifC44IdxKey(i)
+			_ = pri.inner.UploadSegment(bg, sk, body)
+			_ = pri.inner.UploadIndex(bg, ik, body[:4])
+			if r.copy {
+				_ = rep.inner.UploadSegment(bg, sk, body)
+				_ = rep.inner.UploadIndex(bg, ik, body[:4])
+			}
+			rep.mode[sk], rep.mode[ik] = r.mode, r.mode
+			ctx, cancel := context.WithTimeout(bg, 20*time.Second)
+			defer cancel()
+			var got, want string
+			if r.kind == "seg" {
+				got = verifC44Res(dual.DownloadSegment(ctx, sk, r.rng))
+				want = verifC44Res(pri.inner.DownloadSegment(bg, sk, r.rng))
+			} else {
+				got = verifC44Res(dual.DownloadIndex(ctx, ik))
+				want = verifC44Res(pri.inner.DownloadIndex(bg, ik))
+			}
+			out[i] = r.name + "=" + strings.ReplaceAll(got, " ", ":") + "/" + strings.ReplaceAll(want, " ", ":")
+		}(i, r)
+	}
+	wg.Wait()
+	return "slow " + strings.Join(out, " ")
+}
+
 func init() {
 	if os.Getenv("VERIF_HARNESS") != "C44" {
 		return
@@ -177,8 +311,8 @@ func init() {
 	var pri, rep *verifC44Backend
 	var dual storage.S3Client
 	reset := func() {
-		pri = &verifC44Backend{tag: "w", inner: storage.NewMemoryS3Client(), failing: map[string]bool{}, log: &calls}
-		rep = &verifC44Backend{tag: "r", inner: storage.NewMemoryS3Client(), failing: map[string]bool{}, log: &calls}
+		pri = &verifC44Backend{tag: "w", inner: storage.NewMemoryS3Client(), failing: map[string]bool{}, mode: map[string]verifC44Mode{}, log: &calls}
+		rep = &verifC44Backend{tag: "r", inner: storage.NewMemoryS3Client(), failing: map[string]bool{}, mode: map[string]verifC44Mode{}, log: &calls}
 		dual = newDualS3Client(pri, rep)
 	}
 	reset()
@@ -226,6 +360,105 @@ func init() {
 			switch f[0] {
 			case "scenario":
 				return verifC44OrphanScenario()
+			case "slow":
+				return verifC44SlowScenario()
+			case "rmode":
+				// rmode k ok|fail|slowok|slowfail|hang [ms]
+				k, ok1 := key(1)
+				if !ok1 || len(f) < 3 {
+					return "bad-op"
+				}
+				ms := 5
+				if len(f) == 4 {
+					if v, err := strconv.Atoi(f[3]); err == nil {
+						ms = v
+					}
+				}
+				fail := false
+				m := verifC44Mode{}
+				switch f[2] {
+				case "ok":
+				case "fail":
+					fail = true
+				case "slowok", "slowfail", "hang":
+					m = verifC44Mode{f[2], ms}
+				default:
+					return "bad-op"
+				}
+				for _, kk := range []string{verifC44SegKey(k), verifC44IdxKey(k)} {
+					rep.failing[kk] = fail
+					rep.mode[kk] = m
+				}
+				return "ok"
+			case "conc":
+				// conc s:k:start:end,s:k:-,i:k,...   2-4 reads issued concurrently; the primary's downloads are gated to overlap
+				if len(f) != 2 {
+					return "bad-op"
+				}
+				items := strings.Split(f[1], ",")
+				type req struct {
+					idx bool
+					k   int
+					rng *storage.ByteRange
+				}
+				var reqs []req
+				for _, it := range items {
+					p := strings.Split(it, ":")
+					if len(p) < 2 {
+						return "bad-op"
+					}
+					k, err := strconv.Atoi(p[1])
+					if err != nil || k < 0 || k >= 64 {
+						return "bad-op"
+					}
+					r := req{idx: p[0] == "i", k: k}
+					if p[0] == "s" && len(p) == 4 {
+						a, e1 := strconv.ParseInt(p[2], 10, 64)
+						b, e2 := strconv.ParseInt(p[3], 10, 64)
+						if e1 != nil || e2 != nil {
+							return "bad-op"
+						}
+						r.rng = &storage.ByteRange{Start: a, End: b}
+					}
+					reqs = append(reqs, r)
+				}
+				savedPri, savedRep := pri.log, rep.log
+				pri.log, rep.log = nil, nil
+				pri.gate = &verifC44Gate{n: len(reqs), ch: make(chan struct{})}
+				got := make([]string, len(reqs))
+				var wg sync.WaitGroup
+				for i, r := range reqs {
+					wg.Add(1)
+					go func(i int, r req) {
+						defer wg.Done()
+						defer func() {
+							if rec := recover(); rec != nil {
+								got[i] = "panic"
+							}
+						}()
+						cctx, cancel := context.WithTimeout(ctx, 20*time.Second)
+						defer cancel()
+						if r.idx {
+							got[i] = verifC44Res(dual.DownloadIndex(cctx, verifC44IdxKey(r.k)))
+						} else {
+							got[i] = verifC44Res(dual.DownloadSegment(cctx, verifC44SegKey(r.k), r.rng))
+						}
+					}(i, r)
+				}
+				wg.Wait()
+				pri.gate = nil
+				pri.log, rep.log = savedPri, savedRep
+				parts := make([]string, len(reqs))
+				for i, r := range reqs {
+					var p string
+					if r.idx {
+						p = verifC44Res(quiet(pri).DownloadIndex(ctx, verifC44IdxKey(r.k)))
+					} else {
+						p = verifC44Res(quiet(pri).DownloadSegment(ctx, verifC44SegKey(r.k), r.rng))
+					}
+					parts[i] = strings.ReplaceAll(got[i], " ", ":") + "/" + strings.ReplaceAll(p, " ", ":")
+				}
+				return "conc " + strings.Join(parts, " ")
 			case "new":
 				reset()
 				return "ok"
@@ -281,6 +514,9 @@ func init() {
 				}
 				b.failing[verifC44SegKey(k)] = f[2] == "1"
 				b.failing[verifC44IdxKey(k)] = f[2] == "1"
+				// rfail/pfail set the whole read behaviour of the key (a later one replaces an earlier rmode)
+				delete(b.mode, verifC44SegKey(k))
+				delete(b.mode, verifC44IdxKey(k))
 				return "ok"
 			case "rdseg":
 				k, ok1 := key(1)
@@ -296,7 +532,9 @@ func init() {
 					}
 					rng = &storage.ByteRange{Start: a, End: b}
 				}
-				res := verifC44Res(dual.DownloadSegment(ctx, verifC44SegKey(k), rng))
+				cctx, cancel := context.WithTimeout(ctx, 20*time.Second)
+				res := verifC44Res(dual.DownloadSegment(cctx, verifC44SegKey(k), rng))
+				cancel()
 				res = withCalls(res)
 				p := verifC44Res(quiet(pri).DownloadSegment(ctx, verifC44SegKey(k), rng))
 				return res + " pri=" + strings.ReplaceAll(p, " ", ":")
@@ -305,7 +543,9 @@ func init() {
 				if !ok1 || len(f) != 2 {
 					return "bad-op"
 				}
-				res := withCalls(verifC44Res(dual.DownloadIndex(ctx, verifC44IdxKey(k))))
+				cctx, cancel := context.WithTimeout(ctx, 20*time.Second)
+				res := withCalls(verifC44Res(dual.DownloadIndex(cctx, verifC44IdxKey(k))))
+				cancel()
 				p := verifC44Res(quiet(pri).DownloadIndex(ctx, verifC44IdxKey(k)))
 				return res + " pri=" + strings.ReplaceAll(p, " ", ":")
 			case "list":
